@@ -37,10 +37,9 @@ Lemma cog_geometry_guards_proof :
   (forall geometry gamma beta lambda0 rho0 temp0 Gamma, i_Cog10 geometry gamma beta lambda0 rho0 temp0 Gamma <-> cog_23_geom geometry) /\
   (forall geometry gamma beta rho0 temp0 Gamma, i_Cog11 geometry gamma beta rho0 temp0 Gamma <-> cog_any_geom geometry) /\
   (forall geometry gamma beta rho0 u0 Gamma, i_Cog12 geometry gamma beta rho0 u0 Gamma <-> cog_23_geom geometry) /\
-  (forall geometry gamma rho0 alpha beta lambda0 Gamma, i_Cog14 geometry gamma rho0 alpha beta lambda0 Gamma <-> cog_any_geom geometry) /\
   (forall geometry gamma alpha beta lambda0 Gamma, i_Cog17 geometry gamma alpha beta lambda0 Gamma <-> cog_any_geom geometry).
 Proof.
-  unfold i_Cog1, i_Cog2, i_Cog3, i_Cog4, i_Cog6, i_Cog7, i_Cog8, i_Cog9, i_Cog10, i_Cog11, i_Cog12, i_Cog14, i_Cog17,
+  unfold i_Cog1, i_Cog2, i_Cog3, i_Cog4, i_Cog6, i_Cog7, i_Cog8, i_Cog9, i_Cog10, i_Cog11, i_Cog12, i_Cog17,
     cog_any_geom, cog_23_geom, geom123, geom23.
   repeat split; tauto.
 Qed.
@@ -54,6 +53,17 @@ Lemma cog_special_guards_proof :
 Proof.
   unfold i_Cog13, i_Cog16, i_Cog18, i_Cog19, i_Cog20, cog13_doc_ok, cog16_doc_ok, cog18_doc_ok, cog19_doc_ok, cog20_doc_ok.
   split; [ | split; [ | split; [ | split ] ] ]; guard_solve.
+Qed.
+
+Lemma cog14_guards_proof : forall geometry gamma rho0 alpha beta lambda0 Gamma,
+  i_Cog14 geometry gamma rho0 alpha beta lambda0 Gamma <-> cog14_doc_ok geometry alpha beta.
+Proof.
+  intros. unfold i_Cog14, cog14_doc_ok, cog14_b, geom123.
+  split.
+  - intros [[Hg Hd] Hb]. repeat split; try tauto.
+    apply Rnot_le_lt. intro E. apply Hb. right. exact E.
+  - intros (Hg & Hd & Hb & Hp). repeat split; try tauto.
+    intros [E | E]; [ exact (Hb E) | lra ].
 Qed.
 
 Lemma ehep_guards_proof : forall geometry gamma D_ rho_0 up xtilde xmax tmax,
